@@ -4,7 +4,7 @@ import json, os, time
 from . import tlc
 from .common import ToolError, clean_prefix, log, vh, workdir, write_ndjson
 
-PARTS_ARG = {"fi": "fi", "ci": "fi,ci", "sp": "sp", "rp": "rp", "co": "fi,ci,co", "x4": "fi,ci,sp,rp,co"}
+PARTS_ARG = {"fi": "fi", "ci": "fi,ci", "sp": "sp", "rp": "rp", "co": "fi,ci,co", "x4": "fi,ci,sp,rp,co", "eh": "fi,ci,sp,rp"}
 
 
 def run_iters(ctx, name, recs, texts_path, part, excl="", violation=True, shards=16, regex=False, parts=None):
@@ -52,14 +52,20 @@ def run_iters(ctx, name, recs, texts_path, part, excl="", violation=True, shards
         ctx.note("%s: %d patterns of the space did not compile, e.g. %s (%s)" % (name, len(odd), odd[0]["pat"], odd[0]["ek"]))
     if violation:
         for j in rejects:
-            ctx.violation("pattern %s [%s]: expected history %s not produced; produced %s not allowed"
-                          % (j["pat"], part, json.dumps(j["expected_not_logged"])[:300], json.dumps(j["logged_not_expected"])[:300]),
+            if part == "eh":
+                what = ("pattern %s built with backtrack_limit %s: on text #%s the %s history does not cohere with the find_iter history of the same regex "
+                        "(Ok pieces = RefSplit of the Ok matches; Ok replacement = first n matches replaced; needed search failed => Err; constant = closure)"
+                        % (j["pat"], j.get("bl"), (j["logged_not_expected"] or ["?"])[0], (j["logged_not_expected"] or ["?", "?"])[1]))
+            else:
+                what = ("pattern %s [%s]: expected history %s not produced; produced %s not allowed"
+                        % (j["pat"], part, json.dumps(j["expected_not_logged"])[:300], json.dumps(j["logged_not_expected"])[:300]))
+            ctx.violation(what,
                           dict(kind="iters", space=name, part=part, texts=texts_path, ast=j["ast"], ng=j["ng"], bl=j.get("bl", -1), pat=j["pat"],
                                regex=regex, expected_not_logged=j["expected_not_logged"], logged_not_expected=j["logged_not_expected"]))
     try:
         with open("%s.0.ndjson" % prefix) as f:
             r = json.loads(f.readline())
-            key = {"fi": "fi", "ci": "ci", "sp": "spn", "rp": "rp", "co": "cells", "x4": "fi", "c5": "rows"}[part]
+            key = {"fi": "fi", "ci": "ci", "sp": "spn", "rp": "rp", "co": "cells", "x4": "fi", "c5": "rows", "eh": "sp"}[part]
             ctx.samples.append(dict(space=name, part=part, pattern=r["pat"], status=r["st"], first_histories=r.get(key, [])[:3]))
     except (OSError, ValueError):
         pass
